@@ -11,6 +11,12 @@ pub mod shims {
 use super::*;
 // opaque stand-ins for field types no verified function touches (R8)
 #[verifier::external_body] #[verifier::reject_recursive_types(K)] #[verifier::reject_recursive_types(V)] pub struct FxHashMap<K, V> { k: core::marker::PhantomData<(K, V)> }
+impl<K, V> FxHashMap<K, V> {
+    /// whether the map has an entry for the key (whatever the value)
+    pub uninterp spec fn has(&self, k: K) -> bool;
+    #[verifier::external_body] pub fn contains_key(&self, k: &K) -> (r: bool) ensures r == self.has(*k) { unimplemented!() }
+    #[verifier::external_body] pub fn get(&self, k: &K) -> (r: Option<&V>) ensures r.is_some() == self.has(*k) { unimplemented!() }
+}
 #[verifier::external_body] pub struct PendingStreamsQueue { x: u8 }
 #[verifier::external_body] pub struct StreamRecv { x: u8 }
 #[derive(Copy, Clone, PartialEq, Eq)] pub struct VarInt(pub u64);
@@ -142,6 +148,9 @@ use super::*; use super::shims::*;
 //@ end
 // (Verus quirk: an enum with explicit discriminants must precede any impl block in its module, else E0081)
 impl vstd::std_specs::cmp::PartialEqSpecImpl for Side { open spec fn obeys_eq_spec() -> bool { true } open spec fn eq_spec(&self, other: &Side) -> bool { *self == *other } }
+//@ extract quinn-proto/src/connection/streams/mod.rs :: enum StreamHalf
+//@ end
+impl vstd::std_specs::cmp::PartialEqSpecImpl for StreamHalf { open spec fn obeys_eq_spec() -> bool { true } open spec fn eq_spec(&self, other: &StreamHalf) -> bool { *self == *other } }
 impl vstd::std_specs::cmp::PartialEqSpecImpl for Dir { open spec fn obeys_eq_spec() -> bool { true } open spec fn eq_spec(&self, other: &Dir) -> bool { *self == *other } }
 // R9: states that `!side` has the obvious meaning (checked against the real body by the `ensures` below)
 impl vstd::std_specs::ops::NotSpecImpl for Side {
@@ -212,7 +221,7 @@ impl StreamsState {
     pub fn insert(&mut self, remote: bool, id: StreamId)
         ensures final(self).side == old(self).side, final(self).next == old(self).next, final(self).max == old(self).max, final(self).max_remote == old(self).max_remote,
             final(self).next_remote == old(self).next_remote, final(self).next_reported_remote == old(self).next_reported_remote,
-            final(self).allocated_remote_count == old(self).allocated_remote_count,
+            final(self).allocated_remote_count == old(self).allocated_remote_count, final(self).max_concurrent_remote_count == old(self).max_concurrent_remote_count,
             final(self).send_streams == old(self).send_streams, final(self).streams_blocked == old(self).streams_blocked,
             final(self).max_data == old(self).max_data, final(self).data_sent == old(self).data_sent, final(self).unacked_data == old(self).unacked_data,
     { unimplemented!() }
@@ -231,6 +240,47 @@ impl StreamsState {
     pub fn on_stream_frame(&mut self, notify_readable: bool, stream: StreamId)
         ensures final(self).fc() == old(self).fc(), final(self).recv == old(self).recv, final(self).side == old(self).side,
     { unimplemented!() }
+
+//@ extract quinn-proto/src/connection/streams/state.rs :: impl StreamsState::fn ensure_remote_streams
+//@ props C06 C11
+//@ contract
+        requires old(self).max_remote[di(dir)] + old(self).max_concurrent_remote_count[di(dir)] <= 0x1000_0000_0000_0000,
+        ensures
+            // the window of remotely-initiated streams is topped up to the configured concurrency, never beyond it
+            final(self).allocated_remote_count[di(dir)] == (if old(self).max_concurrent_remote_count[di(dir)] > old(self).allocated_remote_count[di(dir)] { old(self).max_concurrent_remote_count[di(dir)] } else { old(self).allocated_remote_count[di(dir)] }),
+            final(self).max_remote[di(dir)] - old(self).max_remote[di(dir)] == final(self).allocated_remote_count[di(dir)] - old(self).allocated_remote_count[di(dir)],
+            final(self).allocated_remote_count[1 - di(dir)] == old(self).allocated_remote_count[1 - di(dir)], final(self).max_remote[1 - di(dir)] == old(self).max_remote[1 - di(dir)],
+            final(self).side == old(self).side, final(self).send_streams == old(self).send_streams, final(self).max_concurrent_remote_count == old(self).max_concurrent_remote_count,
+            final(self).next == old(self).next, final(self).max == old(self).max,
+//@ loop 0
+            invariant
+                self.side == old(self).side, self.next == old(self).next, self.max == old(self).max, self.max_remote == old(self).max_remote,
+                self.allocated_remote_count == old(self).allocated_remote_count, self.send_streams == old(self).send_streams,
+                self.max_concurrent_remote_count == old(self).max_concurrent_remote_count,
+                new_count <= old(self).max_concurrent_remote_count[di(dir)], old(self).max_remote[di(dir)] + old(self).max_concurrent_remote_count[di(dir)] <= 0x1000_0000_0000_0000,
+//@ end
+//@ extract quinn-proto/src/connection/streams/state.rs :: impl StreamsState::fn stream_freed
+//@ props C06 C11
+//@ contract
+        requires
+            // history: the half being freed was counted
+            half == StreamHalf::Send ==> old(self).send_streams >= 1,
+            id.initiator() != old(self).side ==> old(self).allocated_remote_count[di(id.dir())] >= 1,
+            old(self).max_remote[di(id.dir())] + old(self).max_concurrent_remote_count[di(id.dir())] <= 0x1000_0000_0000_0000,
+        ensures
+            final(self).send_streams == (if half == StreamHalf::Send { old(self).send_streams - 1 } else { old(self).send_streams as int }),
+            ({
+                let d = di(id.dir());
+                // a remote stream's slot is released only when the stream is entirely gone: unidirectional, or the other half has no entry any more
+                let fully_free = id.initiator() != old(self).side && (id.dir() == Dir::Uni
+                    || (half == StreamHalf::Send && !old(self).recv.has(id)) || (half == StreamHalf::Recv && !old(self).send.has(id)));
+                let freed = (old(self).allocated_remote_count[d] - 1) as u64;
+                &&& (fully_free ==> final(self).allocated_remote_count[d] == (if old(self).max_concurrent_remote_count[d] > freed { old(self).max_concurrent_remote_count[d] } else { freed })
+                        && final(self).max_remote[d] - old(self).max_remote[d] == final(self).allocated_remote_count[d] - freed)
+                &&& (!fully_free ==> final(self).allocated_remote_count[d] == old(self).allocated_remote_count[d] && final(self).max_remote[d] == old(self).max_remote[d])
+                &&& final(self).allocated_remote_count[1 - d] == old(self).allocated_remote_count[1 - d] && final(self).max_remote[1 - d] == old(self).max_remote[1 - d]
+            }),
+//@ end
 
 //@ extract quinn-proto/src/connection/streams/state.rs :: impl StreamsState::fn received
 //@ props C06
